@@ -1,8 +1,14 @@
 (* C02 — property theorems only.  Each is closed by [exact] of a lemma from Proofs/Expose.v or
    Proofs/ExposeGen.v; the privacy predicate is the function generated from Pyro5/server.py
    (Gen/GenServer.v), except where a theorem holds for every predicate.  [serve] is the model of
-   Daemon.handleRequest's dispatch (the function the correspondence harness runs against the
-   code); [quirks_none] is the repaired behaviour (fixes/C02_*.diff). *)
+   Daemon.handleRequest's dispatch (the function the correspondence harness runs against the code).
+   [quirks_none] is the behaviour the property demands; [quirks_asis] is today's code: the two repaired
+   deviations off, the two open ones (callable exposed helper objects, attribute hooks) on.  Class
+   shapes: methods / static / class methods, properties with getter, setter, deleter each present or
+   not and @expose on the property object or on single accessor functions, class and instance
+   attributes, helper objects (class exposed or not, callable or not), the class's own
+   __getattr__/__getattribute__, each defined in the base class or the registered subclass, with
+   class-level @expose on either. *)
 From Coq Require Import List NArith Arith Bool.
 Import ListNotations.
 From V Require Import Model.StrFun Model.Expose Gen.GenServer Proofs.Expose Proofs.ExposeGen.
@@ -10,8 +16,10 @@ From V Require Import Model.StrFun Model.Expose Gen.GenServer Proofs.Expose Proo
 (* Whatever names a peer sends, in any of the request kinds (oneway or not): a member accessor that
    runs belongs to the shape, was named by the request, has a non-private name, is a method (for
    call/batch) or the getter/setter of a property (for attribute read/write), and was explicitly
-   exposed — by @expose on itself or on the very class that defines it.  Holds for every privacy
-   predicate, every shape (no well-formedness needed), every list of names incl. non-strings. *)
+   exposed — @expose on itself (function, property object or one of its accessor functions, accepted
+   only for a non-private function) or on the very class that defines it.  Nothing of a helper
+   object and no attribute hook runs.  For every privacy predicate, every shape (no
+   well-formedness needed), every list of names incl. non-strings. *)
 Theorem C02_gate_sound : forall (is_private : text -> bool) s r m a,
   In (m, a) (fst (serve is_private quirks_none s r)) ->
   In m (s_members s) /\ In (NStr (m_name m)) (r_names r) /\ is_private (m_name m) = false /\
@@ -19,9 +27,30 @@ Theorem C02_gate_sound : forall (is_private : text -> bool) s r m a,
 Proof. exact gate_sound. Qed.
 Print Assumptions C02_gate_sound.
 
-(* Every call / oneway call / attribute read / attribute write is either refused — no member code
-   runs and the reply is an error, or nothing at all for a oneway request — or runs exactly one
-   accessor once and is answered with a result (nothing for oneway). *)
+(* Today's code, for every shape: whatever runs is legitimate in the above sense, or it is exactly one
+   of the two open deviations — (a) the __call__ of a helper object, only when a call/batch names, by
+   a non-private name, an instance attribute holding a callable instance of a class that carries
+   @expose; (b) the class's own __getattribute__/__getattr__, only during a call/batch and only on
+   behalf of a requested non-private string name.  In particular attribute reads/writes, private and
+   reserved names, non-strings, dotted paths, non-callable or unexposed helpers reach nothing else. *)
+Theorem C02_gate_sound_asis : forall (is_private : text -> bool) s r m a,
+  In (m, a) (fst (serve is_private quirks_asis s r)) ->
+  legit is_private s (r_kind r) (r_names r) m a \/
+  (a = AHelper /\ helper_boundary is_private s (r_kind r) (r_names r) m) \/
+  (a = AHook /\ hook_boundary is_private s (r_kind r) (r_names r) m).
+Proof. exact gate_sound_asis. Qed.
+Print Assumptions C02_gate_sound_asis.
+
+(* On shapes without attribute hooks and without a callable helper of an exposed class, today's code
+   (any variant with the two repairs) IS the property's behaviour, request for request. *)
+Theorem C02_asis_is_exact_on_plain_shapes : forall (is_private : text -> bool) q s r,
+  repaired q -> plain_shape s = true -> serve is_private q s r = serve is_private quirks_none s r.
+Proof. exact plain_agrees. Qed.
+Print Assumptions C02_asis_is_exact_on_plain_shapes.
+
+(* Every call / oneway call / attribute read / attribute write is either refused — no code runs and
+   the reply is an error, or nothing at all for a oneway request — or runs exactly one accessor once
+   and is answered with a result (nothing for oneway). *)
 Theorem C02_refused_or_served : forall (is_private : text -> bool) s k ow n,
   k <> RBatch ->
   let r := {| r_kind := k; r_oneway := ow; r_names := [n] |} in
@@ -30,22 +59,31 @@ Theorem C02_refused_or_served : forall (is_private : text -> bool) s k ow n,
 Proof. exact single_dichotomy. Qed.
 Print Assumptions C02_refused_or_served.
 
-(* Conversely, a request the property allows (the name denotes, by Python attribute resolution, an
-   explicitly exposed non-private method resp. property with the needed accessor) is served. *)
+(* Conversely, a request the property allows (the name denotes, by Python attribute resolution, a
+   non-private method resp. property with the needed accessor, exposed by Pyro5's rule: mark on the
+   function / on the property's first accessor / on the defining class) is served.  A property marked
+   only on a later accessor (e.g. only on its setter while it has a getter) is neither served nor
+   advertised: exposure that has no effect, never the other way round (C02_gate_sound). *)
 Theorem C02_exposed_served : forall (is_private : text -> bool) s k ow t m a,
   k <> RBatch -> may_serve is_private s k t m a ->
   serve is_private quirks_none s {| r_kind := k; r_oneway := ow; r_names := [NStr t] |} = ([(m, a)], reply_ok ow).
 Proof. exact exposed_served. Qed.
 Print Assumptions C02_exposed_served.
 
-(* A batch behaves as the sequence of its single calls cut after the longest prefix of served names:
-   a refused member runs nothing, ends the batch, and the batch is answered with an error. *)
-Theorem C02_batch_as_calls : forall (is_private : text -> bool) s names,
-  fst (serve_batch is_private quirks_none s names) =
-    flat_map (fun n => fst (serve_call is_private quirks_none s n)) (ok_prefix is_private s names) /\
-  snd (serve_batch is_private quirks_none s names) = forallb (call_ok is_private s) names.
+(* A batch, in every variant, is the sequence of its single calls up to and including the first member
+   that is not served, and is answered with a result iff all members are served; under the property's
+   behaviour the member that is not served contributes no effect. *)
+Theorem C02_batch_as_calls : forall (is_private : text -> bool) q s names,
+  fst (serve_batch is_private q s names) =
+    flat_map (fun n => fst (serve_call is_private q s n)) (tried is_private q s names) /\
+  snd (serve_batch is_private q s names) = forallb (call_ok is_private q s) names.
 Proof. exact batch_as_calls. Qed.
 Print Assumptions C02_batch_as_calls.
+
+Theorem C02_batch_refused_member_no_effect : forall (is_private : text -> bool) s n,
+  call_ok is_private quirks_none s n = false -> fst (serve_call is_private quirks_none s n) = [].
+Proof. exact refused_call_no_effect. Qed.
+Print Assumptions C02_batch_refused_member_no_effect.
 
 (* The advertised member lists are exactly the served names (shapes in which no instance attribute
    hides a class member; every property has a getter or a setter). *)
@@ -55,6 +93,13 @@ Theorem C02_metadata_methods_exact : forall (is_private : text -> bool) s n,
    exists m, serve is_private quirks_none s {| r_kind := RCall; r_oneway := false; r_names := [NStr n] |} = ([(m, ACall)], RepResult)).
 Proof. exact meta_methods_exact. Qed.
 Print Assumptions C02_metadata_methods_exact.
+
+Theorem C02_metadata_methods_exact_asis : forall (is_private : text -> bool) s n,
+  plain_shape s = true -> no_shadow s = true ->
+  (In n (meta_methods is_private s) <->
+   exists m, serve is_private quirks_asis s {| r_kind := RCall; r_oneway := false; r_names := [NStr n] |} = ([(m, ACall)], RepResult)).
+Proof. exact meta_methods_exact_asis. Qed.
+Print Assumptions C02_metadata_methods_exact_asis.
 
 Theorem C02_metadata_attrs_exact : forall (is_private : text -> bool) s n,
   props_have_accessor s = true ->
@@ -68,6 +113,22 @@ Theorem C02_metadata_oneway_subset : forall (is_private : text -> bool) s,
   incl (meta_oneway is_private s) (meta_methods is_private s).
 Proof. exact meta_oneway_methods. Qed.
 Print Assumptions C02_metadata_oneway_subset.
+
+(* Several classes (possibly carrying the same name) and several registered objects in one daemon: after
+   ANY sequence of get_metadata calls, every answer is the member list of the class of the object that
+   was asked about — provided the cache key distinguishes classes (injective).  The current source keys
+   the cache by the class object (generated fact, next theorem), which the model renders as the identity. *)
+Theorem C02_metadata_history_exact : forall (is_private : text -> bool) key classes objs hist,
+  injective key ->
+  run_metadata is_private key classes [] (map (class_of objs) hist) =
+  map (fun o => meta_of is_private (shape_of classes objs o)) hist.
+Proof. exact metadata_history_exact. Qed.
+Print Assumptions C02_metadata_history_exact.
+
+Theorem C02_metadata_cache_keyed_by_class :
+  metadata_cache_keyed_by_class = true /\ injective (fun k : nat => k).
+Proof. exact (conj cache_keyed_by_class id_injective). Qed.
+Print Assumptions C02_metadata_cache_keyed_by_class.
 
 (* The predicate generated from is_private_attribute in the current source is exactly "reserved
    dunder name, or leading underscore and not of the form __x__ (longer than four characters)". *)
@@ -84,13 +145,21 @@ Proof. exact baseline_included. Qed.
 Print Assumptions C02_reserved_baseline_included.
 
 (* With the generated predicate: no reserved name (generated or pinned) and no _x name is ever
-   served, for any shape and any request, and none is ever advertised. *)
+   served, for any shape and any request — also in today's code, where even the helper object that
+   gets called is never reached through such a name — and none is ever advertised. *)
 Theorem C02_reserved_never_served : forall s r m a,
   In (m, a) (fst (serve is_private_attribute quirks_none s r)) ->
   ~ In (m_name m) private_dunder_methods /\ ~ In (m_name m) reserved_baseline /\
   ~ (t_startswith (m_name m) [95%N] = true /\ dunder_shaped (m_name m) = false).
 Proof. exact served_name_public. Qed.
 Print Assumptions C02_reserved_never_served.
+
+Theorem C02_reserved_never_served_asis : forall s r m a,
+  In (m, a) (fst (serve is_private_attribute quirks_asis s r)) -> a <> AHook ->
+  ~ In (m_name m) private_dunder_methods /\ ~ In (m_name m) reserved_baseline /\
+  ~ (t_startswith (m_name m) [95%N] = true /\ dunder_shaped (m_name m) = false).
+Proof. exact served_name_public_asis. Qed.
+Print Assumptions C02_reserved_never_served_asis.
 
 Theorem C02_reserved_never_advertised : forall s n,
   In n private_dunder_methods \/ In n reserved_baseline \/ (t_startswith n [95%N] = true /\ dunder_shaped n = false) ->
@@ -99,9 +168,10 @@ Theorem C02_reserved_never_advertised : forall s n,
 Proof. exact private_name_unadvertised. Qed.
 Print Assumptions C02_reserved_never_advertised.
 
-(* The two deviations of the unrepaired code violate gate soundness on their recorded witnesses:
-   a call naming an unexposed property runs its getter; an attribute read reaches a property bound
-   to a private name. *)
+(* The deviations, each on its recorded witness.  Repaired in /repo (kept as regression watch): a call
+   naming an unexposed property ran its getter; an attribute read reached a property bound to a
+   private name.  Open: a plain attribute holding a callable instance of an @expose'd class is called;
+   a call naming a non-existent member runs the class's own __getattr__. *)
 Theorem C02_call_runs_unexposed_getter_refuted :
   In (w_secret, AGet) (fst (serve is_private_attribute q_getter_only w1_shape w1_request)) /\
   ~ explicitly_exposed is_private_attribute w1_shape w_secret.
@@ -114,8 +184,19 @@ Theorem C02_private_property_served_refuted :
 Proof. exact private_property_refuted. Qed.
 Print Assumptions C02_private_property_served_refuted.
 
-(* non-vacuity: an inherited method of an exposed base class is served (oneway: no reply); an own-marked
-   getter-only property is read but not written; the hypotheses of the metadata theorems hold of the shape *)
+Theorem C02_callable_helper_called_refuted :
+  serve is_private_attribute q_helper_only w4_shape w4_request = ([(w_tool, AHelper)], RepResult) /\
+  ~ legit is_private_attribute w4_shape RCall (r_names w4_request) w_tool AHelper.
+Proof. exact helper_called_refuted. Qed.
+Print Assumptions C02_callable_helper_called_refuted.
+
+Theorem C02_attribute_hook_runs_refuted :
+  serve is_private_attribute q_hooks_only w5_shape w5_request = ([(w_getattr, AHook)], RepError) /\
+  ~ legit is_private_attribute w5_shape RCall (r_names w5_request) w_getattr AHook.
+Proof. exact hook_ran_refuted. Qed.
+Print Assumptions C02_attribute_hook_runs_refuted.
+
+(* non-vacuity *)
 Example C02_nonvacuous_served :
   serve is_private_attribute quirks_none w3_shape {| r_kind := RCall; r_oneway := true; r_names := [NStr (m_name w_run)] |}
     = ([(w_run, ACall)], RepNone) /\
@@ -127,7 +208,7 @@ Example C02_nonvacuous_served :
       r_names := [NStr (m_name w_ping); NStr (m_name w_secret); NStr (m_name w_run)] |} = ([(w_ping, ACall)], RepError).
 Proof. vm_compute. repeat split; reflexivity. Qed.
 Example C02_nonvacuous_metadata :
-  no_shadow w3_shape = true /\ props_have_accessor w3_shape = true /\
+  no_shadow w3_shape = true /\ props_have_accessor w3_shape = true /\ plain_shape w3_shape = true /\
   meta_methods is_private_attribute w3_shape = [m_name w_ping; m_name w_run] /\
   meta_attrs is_private_attribute w3_shape = [m_name w_value] /\
   meta_oneway is_private_attribute w3_shape = [m_name w_run].
@@ -136,5 +217,24 @@ Example C02_nonvacuous_may_serve :
   may_serve is_private_attribute w3_shape RCall (m_name w_run) w_run ACall.
 Proof.
   unfold may_serve. split; [vm_compute; reflexivity|]. split; [vm_compute; reflexivity|].
-  split; [simpl; auto|]. right. reflexivity.
+  split; [simpl; auto|]. right. split; [reflexivity|exact I].
 Qed.
+(* a property exposed only on its setter function while it has a getter: explicitly exposed in the property's sense,
+   not by Pyro5's first-accessor rule — neither read, written nor advertised *)
+Example C02_nonvacuous_setter_only :
+  explicitly_exposed is_private_attribute w6_shape w_lvl /\ ~ exposed_by_rule is_private_attribute w6_shape w_lvl /\
+  serve is_private_attribute quirks_asis w6_shape {| r_kind := RSet; r_oneway := false; r_names := [NStr (m_name w_lvl)] |} = ([], RepError) /\
+  meta_attrs is_private_attribute w6_shape = [].
+Proof.
+  split. { left. split; vm_compute; reflexivity. }
+  split. { unfold exposed_by_rule. simpl. intros [[H _]|[H _]]; discriminate. }
+  vm_compute. split; reflexivity.
+Qed.
+(* the same two classes asked in both orders: each answer is its own class's list; keyed by name it is not *)
+Example C02_nonvacuous_history :
+  run_metadata is_private_attribute (fun k => k) [w1_shape; w3_shape] [] (map (class_of [0; 1; 0]) [1; 0; 2; 1])
+    = [meta_of is_private_attribute w3_shape; meta_of is_private_attribute w1_shape;
+       meta_of is_private_attribute w1_shape; meta_of is_private_attribute w3_shape] /\
+  run_metadata is_private_attribute (fun _ => 0) [w1_shape; w3_shape] [] [1; 0] <>
+    [meta_of is_private_attribute w3_shape; meta_of is_private_attribute w1_shape].
+Proof. split. { vm_compute. reflexivity. } vm_compute. intros H. discriminate. Qed.
